@@ -115,6 +115,16 @@ def check(chk: Check) -> None:
                 if n in in_parse or n in none_tests:
                     continue
                 encl = _encl(F, m, n)
+                fe_ = F.functions.get(encl)
+                if fe_ is not None and isinstance(fe_.node, ast.FunctionDef):
+                    deco_ = {(d.id if isinstance(d, ast.Name) else getattr(d, 'attr', None)) for d in fe_.node.decorator_list}
+                    shows_ = bool(deco_ & {'property', 'cached_property'}) or fe_.node.name in ('__repr__', '__str__')
+                    # a property / __repr__ that reports the size or the presence of the cache to the host: it may read the
+                    # mapping (len(), bool, is None), it must not write into it or hand out trees
+                    if shows_ and not any(isinstance(x, (ast.Subscript, ast.Call)) and isinstance(getattr(x, 'value', getattr(x, 'func', None)), ast.Attribute)
+                                          and (getattr(x, 'value', None) is n or (isinstance(x, ast.Call) and isinstance(x.func, ast.Attribute) and x.func.value is n))
+                                          for x in ast.walk(fe_.node)):
+                        continue
                 if encl not in (q, PARSER + '.__init__'):
                     chk.bad(R1, 'parse_cache used in %s' % encl, '%s:%d' % (m.rel, n.lineno),
                             'the cache is touched outside SqParser.parse: `%s`' % norm(n))
